@@ -230,4 +230,123 @@ theorem sweepLT_spec (n : Nat) (P : Nat → Nat) (c : Nat → Nat → K) (dg : N
       rw [if_neg this, h4 p hp]
 
 end trsv
+/-! ### the column sweeps of `?trsv_` (`trans = N`) -/
+section trsvN
+variable {K : Type} [Field K] [Inhabited K]
+
+/-- one column of the `trans = N, uplo = L` sweep (dtrsv.c:196-226) -/
+def colStepLN [BEq K] (n : Nat) (P : Nat → Nat) (M : Nat → Nat → K) (nounit : Bool) (x : Array K) (j : Nat) : Array K :=
+  if x[P j]! == 0 then x else
+  let x := if nounit then x.setIfInBounds (P j) (x[P j]! / M j j) else x
+  let temp := x[P j]!
+  loop (n - 1 - j) (fun (x : Array K) ii => let i := j + 1 + ii
+    x.setIfInBounds (P i) (x[P i]! - temp * M i j)) x
+
+omit [Inhabited K] in
+theorem fwdSub_entry (M : Nat → Nat → K) (d b : Nat → K) (n m : Nat) (hm : m < n) :
+    (fwdSub M d b n).getD m 0 = (b m - ∑ j ∈ range m, M m j * (fwdSub M d b n).getD j 0) / d m := by
+  rw [fwdSub_stable M d b (m + 1) n m (by omega) (by omega), fwdSub_last]
+  congr 2
+  apply Finset.sum_congr rfl
+  intro j hj
+  rw [fwdSub_stable M d b m n j (mem_range.mp hj) (by omega)]
+
+variable [BEq K] [LawfulBEq K]
+
+theorem colStepLN_spec (n : Nat) (P : Nat → Nat) (M : Nat → Nat → K) (nounit : Bool) (b : Nat → K) (x0 X : Array K)
+    (hinj : ∀ i j, i < n → j < n → P i = P j → i = j) (hb : ∀ i, i < n → P i < X.size) (m : Nat) (hm : m < n)
+    (h1 : ∀ j, j < m → X[P j]! = (fwdSub M (fun j => if nounit then M j j else 1) b n).getD j 0)
+    (h2 : ∀ i, m ≤ i → i < n → X[P i]! = b i - ∑ j ∈ range m, M i j * (fwdSub M (fun j => if nounit then M j j else 1) b n).getD j 0)
+    (h3 : ∀ p, (∀ i, i < n → P i ≠ p) → X[p]! = x0[p]!) :
+    (colStepLN n P M nounit X m).size = X.size ∧
+    (∀ j, j < m + 1 → (colStepLN n P M nounit X m)[P j]! = (fwdSub M (fun j => if nounit then M j j else 1) b n).getD j 0) ∧
+    (∀ i, m + 1 ≤ i → i < n → (colStepLN n P M nounit X m)[P i]! =
+        b i - ∑ j ∈ range (m + 1), M i j * (fwdSub M (fun j => if nounit then M j j else 1) b n).getD j 0) ∧
+    (∀ p, (∀ i, i < n → P i ≠ p) → (colStepLN n P M nounit X m)[p]! = x0[p]!) := by
+  have hfs := fwdSub_entry M (fun j => if nounit then M j j else 1) b n m hm
+  rw [← h2 m (le_refl _) hm] at hfs
+  unfold colStepLN
+  by_cases hz : X[P m]! = 0
+  · have : (X[P m]! == 0) = true := by simp [hz]
+    simp only [this, if_true]
+    have hfm : (fwdSub M (fun j => if nounit then M j j else 1) b n).getD m 0 = 0 := by rw [hfs, hz]; simp
+    refine ⟨by simp, ?_, ?_, h3⟩
+    · intro j hj
+      by_cases hjm : j = m
+      · subst hjm; rw [hz, hfm]
+      · exact h1 j (by omega)
+    · intro i hi hin
+      rw [h2 i (by omega) hin, Finset.sum_range_succ, hfm]; simp
+  · have : (X[P m]! == 0) = false := by simp [hz]
+    simp only [this, Bool.false_eq_true, if_false]
+    -- the array after the optional division
+    have hX1 : ∃ X1 : Array K, (if nounit then X.setIfInBounds (P m) (X[P m]! / M m m) else X) = X1 ∧ X1.size = X.size ∧
+        X1[P m]! = (fwdSub M (fun j => if nounit then M j j else 1) b n).getD m 0 ∧
+        (∀ p, p ≠ P m → X1[p]! = X[p]!) := by
+      by_cases hnu : nounit = true
+      · simp only [hnu, if_true] at hfs ⊢
+        refine ⟨X.setIfInBounds (P m) (X[P m]! / M m m), rfl, by simp, ?_, ?_⟩
+        · rw [getElem!_setIfInBounds]
+          simp only [hb m hm, and_self, if_true]
+          exact hfs.symm
+        · intro p hp
+          rw [getElem!_setIfInBounds]
+          have : ¬ (P m = p ∧ P m < X.size) := fun hc => hp hc.1.symm
+          rw [if_neg this]
+      · have hnu' : nounit = false := by simpa using hnu
+        simp only [hnu', Bool.false_eq_true, if_false] at hfs ⊢
+        refine ⟨X, rfl, rfl, ?_, fun _ _ => rfl⟩
+        rw [hfs]; simp
+    obtain ⟨X1, hX1e, hs1, hv1, ho1⟩ := hX1
+    rw [hX1e]
+    have hupd := updTo_spec (n - 1 - m) (fun ii => P (m + 1 + ii)) (fun ii v => v - X1[P m]! * M (m + 1 + ii) m) X1
+      (fun i j hi hj h => by have := hinj _ _ (by omega) (by omega) h; omega)
+      (fun i hi => by rw [hs1]; exact hb _ (by omega)) (n - 1 - m) (le_refl _)
+    have hY : loop (n - 1 - m) (fun (x : Array K) ii => x.setIfInBounds (P (m + 1 + ii)) (x[P (m + 1 + ii)]! - X1[P m]! * M (m + 1 + ii) m)) X1 =
+        updTo (fun ii => P (m + 1 + ii)) (fun ii v => v - X1[P m]! * M (m + 1 + ii) m) X1 (n - 1 - m) := rfl
+    rw [hY]
+    obtain ⟨u1, u2, u3⟩ := hupd
+    have hoff : ∀ j, j < m + 1 → ∀ ii, ii < n - 1 - m → P (m + 1 + ii) ≠ P j := by
+      intro j hj ii hii hc
+      have := hinj _ _ (by omega) (by omega) hc
+      omega
+    refine ⟨by rw [u1, hs1], ?_, ?_, ?_⟩
+    · intro j hj
+      rw [u3 (P j) (hoff j hj)]
+      by_cases hjm : j = m
+      · subst hjm; exact hv1
+      · have hne : P j ≠ P m := fun hc => hjm (hinj _ _ (by omega) hm hc)
+        rw [ho1 _ hne]; exact h1 j (by omega)
+    · intro i hi hin
+      have hi' : i = m + 1 + (i - m - 1) := by omega
+      have := u2 (i - m - 1) (by omega)
+      simp only [show i - m - 1 < n - 1 - m by omega, if_true] at this
+      rw [← hi'] at this
+      rw [this, hv1]
+      have hne : P i ≠ P m := fun hc => by have := hinj _ _ hin hm hc; omega
+      rw [ho1 _ hne, h2 i (by omega) hin, Finset.sum_range_succ]
+      ring
+    · intro p hp
+      rw [u3 p (fun ii hii => hp _ (by omega))]
+      have hne : p ≠ P m := fun hc => hp m hm hc.symm
+      rw [ho1 p hne]; exact h3 p hp
+
+theorem sweepLN_spec (n : Nat) (P : Nat → Nat) (M : Nat → Nat → K) (nounit : Bool) (x : Array K)
+    (hinj : ∀ i j, i < n → j < n → P i = P j → i = j) (hb : ∀ i, i < n → P i < x.size) (m : Nat) (hm : m ≤ n) :
+    (loop m (colStepLN n P M nounit) x).size = x.size ∧
+    (∀ j, j < m → (loop m (colStepLN n P M nounit) x)[P j]! =
+      (fwdSub M (fun j => if nounit then M j j else 1) (fun i => x[P i]!) n).getD j 0) ∧
+    (∀ i, m ≤ i → i < n → (loop m (colStepLN n P M nounit) x)[P i]! =
+      x[P i]! - ∑ j ∈ range m, M i j * (fwdSub M (fun j => if nounit then M j j else 1) (fun i => x[P i]!) n).getD j 0) ∧
+    (∀ p, (∀ i, i < n → P i ≠ p) → (loop m (colStepLN n P M nounit) x)[p]! = x[p]!) := by
+  induction m with
+  | zero => simp [loop_zero]
+  | succ m ih =>
+    obtain ⟨s, h1, h2, h3⟩ := ih (by omega)
+    rw [loop_succ]
+    obtain ⟨t, g1, g2, g3⟩ := colStepLN_spec n P M nounit (fun i => x[P i]!) x (loop m (colStepLN n P M nounit) x)
+      hinj (fun i hi => by rw [s]; exact hb i hi) m (by omega) h1 h2 h3
+    exact ⟨by rw [t, s], g1, g2, g3⟩
+
+end trsvN
 end Slu.Cblas
